@@ -82,7 +82,7 @@ CHECKS = {
     ),
     "C07": (
         "schedule-owning thread harness (sys.settrace preemption at every line of permset.py, cooperative replacement of the class lock) driven by Hypothesis-generated and PCT-style schedules; sequential brute-force model as oracle; real-thread stress run",
-        "Each case is (basis, 2-4 thread programs, schedule); every lock permset.py holds or creates (class attributes, class-level dicts, multiprocessing/threading Lock/RLock made lazily) is made cooperative, whatever the locking scheme; exactly one thread runs at a time so the run is a pure function of code and case and shrinks/replays as one value; every query result is compared with the sequential answer, exceptions and deadlocks are violations. Exploration: schedules are sampled, not enumerated. Lazily consumed enumerations with a scheduling point per item, threads racing to construct the class, parked deep builds against near-member / tail-occurrence membership queries, membership queries for the basis elements themselves. Finite classes: a short query parked in its first lines while another thread builds past the last non-empty level.",
+        "Each case is (basis, 2-4 thread programs, schedule); every lock permset.py holds or creates (class attributes, class-level dicts, multiprocessing/threading Lock/RLock made lazily) is made cooperative, whatever the locking scheme; exactly one thread runs at a time so the run is a pure function of code and case and shrinks/replays as one value; every query result is compared with the sequential answer, exceptions and deadlocks are violations. Exploration: schedules are sampled, not enumerated. Lazily consumed enumerations with a scheduling point per item, threads racing to construct the class, parked deep builds against near-member / tail-occurrence membership queries, membership queries for the basis elements themselves. Finite classes: a short query parked in its first lines while another thread builds past the last non-empty level. Publication points: the building thread parked right after the k-th level became visible while the others query that level.",
         "Preemption granularity = one source line of permset.py; library code called from there runs atomically. A foreign blocking primitive introduced by a change shows up as a harness stall (exit 2), not as a violation.",
         "DESIGN.md 3.5, 4/C07",
     ),
